@@ -111,8 +111,13 @@ func runOne(r *ev.Run, h int, rng *rand.Rand, o gen.Opts, so StepOpts, minOps, m
 		if extra != nil {
 			ps = append(ps, extra(s, op)...)
 		}
-		for _, a := range auds {
-			ps = append(ps, a(s, op)...)
+		if len(ps) == 0 {
+			for _, a := range auds {
+				ps = append(ps, a(s, op)...)
+				if len(ps) > 0 {
+					break
+				}
+			}
 		}
 		for _, p := range ps {
 			if Verbose {
